@@ -20,6 +20,8 @@ for d in $demos; do
   if grep -q "use mpd_client\|mpd_client::" $d; then crate=mpd_client; else crate=mpd_protocol; fi
   mkdir -p $crate/tests; cp $d $crate/tests/$name.rs
   feat=""; [ $crate = mpd_protocol ] && feat="--features async"
+  # a demonstration that needs an optional feature says so in its first lines: `// features: chrono`
+  f2=$(head -5 $d | grep -o "features: [a-z,]*" | head -1 | sed 's/features: //'); [ -n "$f2" ] && feat="--features $f2"
   timeout 900 cargo test -p $crate $feat --offline --test $name >/tmp/tw/confirm-$id-with.log 2>&1 && echo "DEMO_WITH_PATCH($name)=pass" || echo "DEMO_WITH_PATCH($name)=fail"
   git apply -R $patch
   timeout 900 cargo test -p $crate $feat --offline --test $name >/tmp/tw/confirm-$id-without.log 2>&1 && echo "DEMO_WITHOUT_PATCH($name)=pass" || echo "DEMO_WITHOUT_PATCH($name)=fail"
